@@ -374,8 +374,9 @@ class Scenario:
 
         def die(_code=0):
             raise _WatchDied('utils.sys_exit called from a watch callback')
-        saved = {k: getattr(am, k) for k in ('time', 'restclient', 'zkutils', 'zkwatchers', 'alert', 'context',
-                                            'math', 'reevaluate')}
+        _missing = object()
+        saved = {k: getattr(am, k, _missing) for k in ('time', 'restclient', 'zkutils', 'zkwatchers', 'alert',
+                                                       'context', 'math', 'reevaluate')}
         saved_exit = m.utils.sys_exit
         am.time = types.SimpleNamespace(time=self.time, sleep=self.sleep)
         am.restclient = _Proxy(m.restclient, post=self.post)
@@ -396,7 +397,11 @@ class Scenario:
             crashed = '%s: %s' % (type(e).__name__, e)
         finally:
             for k, v in saved.items():
-                setattr(am, k, v)
+                if v is _missing:
+                    if hasattr(am, k):
+                        delattr(am, k)
+                else:
+                    setattr(am, k, v)
             m.utils.sys_exit = saved_exit
         return {'model_events': self.model_events, 'evals': self.evals, 'crashed': crashed}
 
